@@ -226,6 +226,33 @@ func VerifC17_P4() {
 	sym.Assert(sym.Iff(pat.Matches(l), pat2.Matches(l)), "C17.P4.print-parse-preserves-matches")
 }
 
+// P4b: the same obligation on patterns assembled from their grammar (reaches texts longer than the
+// free-text bound of P4, e.g. "//...:l" or "//a/a/...:l")
+func VerifC17_P4_structured() {
+	lead := []string{"//", ""}[sym.Choice("lead", 2)]
+	pkg := sym.StringNAlpha("pkg", bound(3, 4), "a/")
+	rec := []string{"", "...", "/..."}[sym.Choice("recursive", 3)]
+	filter := ""
+	if sym.Choice("filter", 2) == 1 {
+		filter = ":" + sym.StringNAlpha("name", 2, "al")
+	}
+	text := lead + pkg + rec + filter
+	cur := "c"
+	pat, err := ParseTargetPattern(cur, text)
+	if err != nil {
+		return
+	}
+	sym.Assume(cleanPkg(pat.prefix))
+	sym.Reach("P4b.accepted")
+	pat2, err2 := ParseTargetPattern(cur, pat.String())
+	sym.Assert(err2 == nil, "C17.P4.reparse-ok")
+	if err2 != nil {
+		return
+	}
+	l := probeLabel()
+	sym.Assert(sym.Iff(pat.Matches(l), pat2.Matches(l)), "C17.P4.print-parse-preserves-matches")
+}
+
 // P5: TargetPatternFromLabel(l) matches exactly l; match-all matches everything
 func VerifC17_P5() {
 	pkg := sym.StringAlpha("l.pkg", 4, pkgAlpha)
